@@ -62,8 +62,8 @@ func c07State(c *Ctx, n *Node) []Violation {
 	want := stagedDiff(I, T)
 	if fmtKinds(rep.Staged) != fmtKinds(want) || (len(want) == 0) == rep.HasStaged {
 		vs = append(vs, Violation{Oracle: "staged-report-exact", Command: "status", Tags: tags,
-			Detail:  fmt.Sprintf("'Changes to be committed' lists %s, expected %s", fmtKinds(rep.Staged), fmtKinds(want)),
-			Trace:   append(c.X.fullTrace(n, nil), Run("status"))})
+			Detail: fmt.Sprintf("'Changes to be committed' lists %s, expected %s", fmtKinds(rep.Staged), fmtKinds(want)),
+			Trace:  append(c.X.fullTrace(n, nil), Run("status"))})
 	}
 	return vs
 }
